@@ -124,3 +124,12 @@ reg("C10", "^TestC10$", q=(60, 4, 1200), t=(800, 16, 5400), batch=60,
          "commitment recomputed from the wire, all covered fields must agree, and perturbing any covered field must change the commitment.",
     note="Trusted: protobuf/grpc libraries, go-ethereum ecrecover, the re-implemented commitment formulas (documented in aggkit; the literal vectors in the repo's tests pin them to the Agglayer's).",
     design="§3 C10")
+
+reg("C13", "^TestC13$", q=(150, 4, 1500), t=(600, 16, 5400), batch=40, level="fault_enumeration",
+    technique="property-based testing with enumerated crash/fault injection: rapid-generated prefixes and crash plans (death before/after submit, after store, DB loss) with restart through the real start-up reconciliation and real gRPC client; SQL-trigger faults at every statement of the save transaction; oracle = model Agglayer's chain checks after restart + table snapshot equality",
+    text="Fault enumeration: the real aggsender is killed at each externally visible point of the send path or loses its database, "
+         "is restarted (aggsender.New + start-up reconciliation over the real gRPC client against the model Agglayer in every "
+         "Agglayer-side state) and must then submit only certificates with the right height, previous exit root and first block; "
+         "each statement of SaveLastSentCertificate's transaction is failed in turn and must leave the table unchanged.",
+    note="Trusted: model Agglayer's notion of latest settled / latest pending header; a death is a panic recovered at the step boundary (no DB transaction open there); SQLite crash atomicity.",
+    design="§3 C13")
